@@ -69,6 +69,9 @@ func listLen(r *prng.Rng) int {
 		return 127 + r.Intn(3)
 	case 4:
 		return 300
+	case 5:
+		// payloads that cross the one-byte length limit with fewer than 128 elements
+		return []int{13, 15, 16, 17, 25, 26, 31, 32, 33, 43, 63, 64, 65}[r.Intn(13)]
 	default:
 		return r.Intn(12)
 	}
